@@ -19,3 +19,10 @@ func init() {
 	specs["C11"] = &propSpec{engine: "wgsim", quickN: 16000, thorN: 400000, quickS: 60, thorS: 1500,
 		rule:    specs["C04"].rule, mustHit: []string{"map.rotate", "map.reverse", "map.shuffle"}, assume: wgAssume}
 }
+
+func init() {
+	specs["C17"] = &propSpec{engine: "plainsim", quickN: 6000, thorN: 120000, quickS: 60, thorS: 1500,
+		rule:    "one workload = one generated model (any rewrite shape, multi-line node pairs and computed-only cycles biased in); one evaluation = build + DOT + Reversed + Reversed twice + all-pairs PathExists + label lookup + GetCycles under one schedule over the gonum map iterators / map ranges and the ULID clock; distinct = distinct seam-event-log fingerprint; non-trivial = two lines join one node pair or the model has a cycle, AND at least one fault fired",
+		mustHit: []string{"map.reverse", "map.rotate", "map.shuffle", "clock.back"},
+		assume: []string{"the gonum iterator overlay (sorted + permuted keys instead of reflect.MapIter) only produces orders the runtime may produce", "reference plain graph of DESIGN.md §7.7 encodes the statement", "edge conditions are not observable through the plain graph's API and are not compared"}}
+}
